@@ -75,7 +75,9 @@ class MIADistinguisherMixin(_PartitionnedDistinguisherBaseMixin):
     def _accumulate(self, traces, data):
         if self.bin_edges is None:
             logger.info('Start setting y_window and bin_edges.')
-            self.y_window = (_np.min(traces), _np.max(traces))
+            # Python floats: the edges are then computed in float64 whatever the dtype of the traces, and pass
+            # the uniformity check of the bin_edges setter (float32 linspace edges are only equally spaced to ~1e-7).
+            self.y_window = (float(_np.min(traces)), float(_np.max(traces)))
             self.bin_edges = _np.linspace(*self.y_window, self.bins_number + 1)
             logger.info('Bin edges set.')
         self._accumulate_core(traces, data, self.bin_edges, self.accumulators)
